@@ -11,8 +11,8 @@ RULE = ("Hypothesis draws a valid stream (same two sources as C08: SVT encoder, 
         "settings threads in 2..16 x is_16bit_pipeline x a schedule stressor (CPU affinity squeeze to 2-4 cores, at most 4 threads per core via taskset so that 16 decoder threads preempt each other inside their spin-wait regions; "
         "H1 perturbation string for the mutex/semaphore wrappers the decoder does use). Half of the cases run on the ASan build (every packet in an exact-size heap buffer, so any over-read is visible), "
         "LeakSanitizer at exit. Oracle: every multi-threaded run returns exactly the pictures of the 1-thread decode of the same stream (which C08 ties to "
-        "libaom/dav1d; here the libaom decode is also compared), no decoder error, no ASan/LSan report, deinit + deinit_handle return, the process exits; a differing multi-threaded run is repeated 4 times: the same wrong pictures every time = 'deterministic', otherwise 'intermittent'; the key also carries the thread-count bucket (2-4 / 5+): the listed hand-over race of the pinned tree shows up intermittently, or - with 5+ threads under ASan timing - with one predominant wrong result; a run exceeding 45 s (normal: 0.1-3 s) is a hang candidate and must "
-        "reproduce in 2 of 3 replays. non-trivial = threads >= 2 and the stream has >= 2 tiles or >= 4 SB rows, and >= 2 multi-threaded settings completed; distinct = sha256(stream) x settings.")
+        "libaom/dav1d; here the libaom decode is also compared), no decoder error, no ASan/LSan report, deinit + deinit_handle return, the process exits; a differing multi-threaded run is repeated 4 times: the same wrong pictures every time = 'deterministic', otherwise 'intermittent'; the key also carries the thread-count bucket (2-4 / 5+): the listed hand-over race of the pinned tree shows up intermittently, or - with 5+ threads under ASan timing - with one predominant wrong result; a run exceeding 30 s (normal: 0.1-3 s) is a hang candidate and must "
+        "reproduce in 2 of 3 replays. non-trivial = the stream has >= 2 tiles or >= 4 SB rows and >= 1 multi-threaded setting (threads >= 2) completed with pictures equal to the single-thread decode (the listed barrier deadlock ends many runs of the pinned tree); distinct = sha256(stream) x settings.")
 ASSUMPTIONS = ["the data-race clause is NOT decided: the decoder synchronises through volatile spin flags that ThreadSanitizer does not model (thousands of reports on the unchanged tree, no signal); "
                "what is decided: equality with the single-thread result under preemption stress, memory safety (ASan), leaks (LSan), termination and teardown",
                "sampled schedules (affinity squeeze + wrapper perturbation), not enumeration"]
@@ -25,8 +25,9 @@ def variants(tier):
 
 def budget(tier):
     if tier == "thorough":
-        return dict(shards=16, examples=300, seconds=1200, shrink_seconds=240, min_nontrivial=40)
-    return dict(shards=16, examples=30, seconds=70, shrink_seconds=60, min_nontrivial=8)
+        return dict(shards=6, examples=300, seconds=1500, shrink_seconds=240, min_nontrivial=30)
+    # few shards: every decoder run spins up to 16 threads; 16 shards at once starve each other into the time limit
+    return dict(shards=5, examples=40, seconds=170, shrink_seconds=60, min_nontrivial=4)
 
 
 def strategy(tier):
@@ -71,7 +72,7 @@ def strategy(tier):
     return s()
 
 
-def _decode(tu, wd, tag, variant, threads, is16, cpus=0, sched=None, timeout=45):
+def _decode(tu, wd, tag, variant, threads, is16, cpus=0, sched=None, timeout=30):
     env = {}
     if sched:
         env["SVT_VERIF_SCHED"] = sched
@@ -122,6 +123,7 @@ def run_case(case, tier):
         sbs = 128 if (si.seq or {}).get("use_128x128_superblock") else 64
         sbrows = max([(h.get("FrameHeight", 0) + sbs - 1) // sbs for h in si.frames] or [1])
         done = 0
+        hangs = 0
         base = {}
         for is16 in sorted({r["is16"] for r in case["runs"]}):
             b = _decode(tu, wd, "t1_%d" % is16, variant, 1, is16)
@@ -139,8 +141,12 @@ def run_case(case, tier):
             r = _decode(tu, wd, "mt%d" % i, variant, rn["threads"], rn["is16"], rn["cpus"], rn["sched"])
             tag = "threads=%d is16=%d cpus=%s sched=%s" % (rn["threads"], rn["is16"], rn["cpus"], rn["sched"])
             if r.exit == -999:
-                viol.append(dict(key="C09|hang", what="multi-threaded decode did not finish within 45 s (%s)" % tag))
-                break       # one hang per case is enough (each costs the full time limit)
+                if not any(v["key"] == "C09|hang" for v in viol):
+                    viol.append(dict(key="C09|hang", what="multi-threaded decode did not finish within 30 s (%s)" % tag))
+                hangs += 1
+                if hangs >= 2:
+                    break       # each hang costs the full time limit
+                continue
             if r.san:
                 rep = r.san[0]
                 viol.append(dict(key="C09|sanitizer|%s|%s" % (rep["kind"], rep["frame"]), what="%s: %s" % (tag, rep["line"])))
@@ -172,7 +178,7 @@ def run_case(case, tier):
                         break
                 else:
                     done += 1
-        nt = done >= 2 and (tiles >= 2 or sbrows >= 4)
+        nt = done >= 1 and (tiles >= 2 or sbrows >= 4)
         classes += ["tiles%d" % min(tiles, 16), "sbrows%d" % min(sbrows, 8)] + ["threads%d" % r["threads"] for r in case["runs"]]
         if any(r["cpus"] for r in case["runs"]):
             classes.append("cpu_squeeze")
